@@ -29,6 +29,9 @@ func (C04) Generate(r *core.Rand, tier string, idx int) *core.Scenario {
 	if r.P(1, 6) {
 		sc.Cfg["revlist"] = 1
 	}
+	if r.P(1, 6) {
+		sc.Cfg["selfcopy"] = 1 // COPY/MOVE into the selected mailbox itself (finding F08)
+	}
 	if r.P(1, 4) {
 		sc.Cfg["fastrestart"] = 1 // restart and create mailboxes before the clock passed the last UIDVALIDITY handed out
 	}
@@ -168,6 +171,7 @@ func (C04) Execute(sc *core.Scenario, keepLog bool) *core.Result {
 		if e.Failed() {
 			return
 		}
+		m.NoSelfCopy = sc.C("selfcopy") == 0
 		l := newLedger(e)
 		for _, b := range m.Boxes {
 			l.observe(b, "initial")
